@@ -240,6 +240,19 @@ func (c *CEnv) ident(name string) cv {
 	if m, ok := c.x.specs.macros[name]; ok {
 		return c.eval(m)
 	}
+	if strings.HasPrefix(name, "$") {
+		// $callee: the value returned by the call of that function in the innermost frame that has one
+		for i := len(c.frames) - 1; i >= 0; i-- {
+			for v, val := range c.frames[i].env {
+				if call, ok := v.(*ssa.Call); ok {
+					if f := call.Common().StaticCallee(); f != nil && f.Name() == name[1:] {
+						return cv{V: val, T: call.Type()}
+					}
+				}
+			}
+		}
+		c.fail("no call result for %s", name)
+	}
 	// locals by name in frames (innermost first)
 	for i := len(c.frames) - 1; i >= 0; i-- {
 		if v, ok := c.localByName(c.frames[i], name); ok {
@@ -425,13 +438,12 @@ func (c *CEnv) sel(v cv, field string) cv {
 			return c.x.decodeValue(st, x.Fam, raw)
 		case "dec":
 			// what the getters decode: the value, or the decoding of empty bytes when absent
-			raw := Ite(T{S: fmt.Sprintf("((_ is some) %s)", x.Opt.S), So: SBool}, T{S: fmt.Sprintf("(someval %s)", x.Opt.S), So: SString}, T{S: `""`, So: SString})
+			raw := app(SString, "getraw", x.Opt)
 			return c.x.decodeValue(st, x.Fam, raw)
 		case "n":
 			// numeric reading used by the u64 getters: 0 when absent or empty
-			raw := T{S: fmt.Sprintf("(someval %s)", x.Opt.S), So: SString}
-			pres := T{S: fmt.Sprintf("((_ is some) %s)", x.Opt.S), So: SBool}
-			return cv{V: Ite(And(pres, Gt(StrLen(raw), IntLit(0))), app(SInt, "u64dec", raw), IntLit(0))}
+			raw := app(SString, "getraw", x.Opt)
+			return cv{V: Ite(Gt(StrLen(raw), IntLit(0)), app(SInt, "u64dec", raw), IntLit(0))}
 		}
 		c.fail("ghost entry has fields present, raw, v; not %s", field)
 	case *PtrV:
@@ -506,6 +518,38 @@ func (c *CEnv) sel(v cv, field string) cv {
 			case "len":
 				return cv{V: T{S: fmt.Sprintf("(len_%s %s)", x.So, x.S), So: SInt}}
 			}
+		}
+		if x.So == "Key" {
+			// k.is_Pool, k.Pool_0 ... components of a store key
+			if strings.HasPrefix(field, "is_") {
+				if fam, ok := familyByName[field[3:]]; ok {
+					return cv{V: T{S: fmt.Sprintf("((_ is K_%s) %s)", fam.Name, x.S), So: SBool}}
+				}
+			}
+			if i := strings.LastIndex(field, "_"); i > 0 {
+				if fam, ok := familyByName[field[:i]]; ok {
+					var n int
+					fmt.Sscanf(field[i+1:], "%d", &n)
+					if n < len(fam.Segs) {
+						return cv{V: T{S: fmt.Sprintf("(K_%s_%d %s)", fam.Name, n, x.S), So: segSort(fam.Segs[n])}}
+					}
+				}
+			}
+			c.fail("bad key component %s", field)
+		}
+		if x.So == "OptS" {
+			switch field {
+			case "present":
+				return cv{V: T{S: fmt.Sprintf("((_ is some) %s)", x.S), So: SBool}}
+			case "raw":
+				return cv{V: T{S: fmt.Sprintf("(someval %s)", x.S), So: SString}}
+			}
+			if strings.HasPrefix(field, "as_") {
+				if fam, ok := familyByName[field[3:]]; ok {
+					return c.x.decodeValue(st, fam, T{S: fmt.Sprintf("(someval %s)", x.S), So: SString})
+				}
+			}
+			c.fail("optional store value has .present, .raw, .as_<Family>")
 		}
 		if x.So == "Dyn" {
 			// field "as_<Type>" selects the payload of a constructor: x.as_BatchTx
@@ -588,7 +632,8 @@ func (c *CEnv) index1(base cv, idx T) cv {
 	switch b := base.V.(type) {
 	case *SliceV:
 		if b.Back < 0 {
-			c.fail("index into nil slice")
+			// total semantics in specifications: an arbitrary element (indices are guarded by the clause)
+			return cv{V: c.x.e.fresh("nilelem", c.x.e.sortOf(b.Elem)), T: b.Elem}
 		}
 		i := Add(b.Off, idx)
 		el := c.x.e.getPath(st, st.Heap[b.Back], []PathEl{{Field: -1, Idx: &i}})
@@ -806,6 +851,28 @@ func (c *CEnv) callFn(e *Expr) cv {
 		c.fail("sum() is not supported; use explicit ghost accumulators")
 	}
 	switch name {
+	case "itpos", "itn", "itkey", "itval", "itsnap":
+		iv := c.eval(e.Args[0])
+		it, ok := iv.V.(*OpaqueV)
+		if !ok || it.Tag != "iter" {
+			c.fail("%s needs an iterator, got %T", name, iv.V)
+		}
+		switch name {
+		case "itpos":
+			p, _ := c.x.iterPos(c.curState(), it)
+			return cv{V: p}
+		case "itn":
+			return cv{V: it.Data["n"].(T)}
+		case "itsnap":
+			return cv{V: it.Data["snap"].(T)}
+		case "itkey":
+			return cv{V: T{S: fmt.Sprintf("(itkey %s %s)", it.Data["id"].(T).S, c.term(e.Args[1]).S), So: "Key"}}
+		case "itval":
+			k := fmt.Sprintf("(itkey %s %s)", it.Data["id"].(T).S, c.term(e.Args[1]).S)
+			raw := T{S: fmt.Sprintf("(someval (select %s %s))", it.Data["snap"].(T).S, k), So: SString}
+			fam := familyByName[it.Data["fam"].(T).S]
+			return c.x.decodeValue(c.curState(), fam, raw)
+		}
 	case "mk":
 		// mk(TypeName, field values in declaration order): a message value
 		if e.Args[0].Op != "id" {
